@@ -2,7 +2,9 @@
 C02 (order tie) — the ORDER of file-system actions the crash model behind C02 relies on, as it is in the Go source
 TODAY.  `SST.Generated.Order.table` is regenerated from /repo by tools/orderfacts before every proof build; the
 quantifier of every theorem below is that finite table, so `decide` is a proof ABOUT THE SOURCE'S CALL ORDER (up to the
-tool's classification of calls, which is syntactic and listed in the generated file), not a sample.
+tool's classification of calls — by go/types identities, see tools/orderfacts/main.go — ), not a sample.  The table is
+rename-stable and in a control-flow normal form (Spec/Order.lean, header): conditions are canonical texts (`errNonNil`,
+`nonNil(<type>.<field>)`, a local by its definition or its type `‹T›`), early exits are guards.
 Expectations and the label → model-event map: SST/Spec/Order.lean.  The model: SST/Model/FS.lean (`flushEvs`,
 `compactEvs`, `fsStep … .close`).
 -/
@@ -24,7 +26,8 @@ theorem flag_after_table_closed :
     allBefore .writerClose .saveCompactionFlag (immediate 0 xs) = true ∧
     unconditional .writerClose (immediate 0 xs) = true ∧
     unconditional .saveCompactionFlag (immediate 0 xs) = true ∧
-    condsAround .writerClose [] (deferredBlocks xs).flatten = [["!writerClosed"]] := by decide +kernel
+    -- the guard of the deferred close is the negation of a boolean local (`!writerClosed`, whatever it is called)
+    condsAround .writerClose [] (deferredBlocks xs).flatten = [["!‹bool›"]] := by decide +kernel
 
 /-- the merged table is written between opening and closing the writer, into a fresh temporary directory; the inputs
 are opened in the (sorted) selection order from index 0.  Since bfb8835 the deferred close of the inputs — every element
@@ -34,11 +37,12 @@ close and this one. -/
 theorem compaction_steps_in_order :
     let all := itemsOf "simpledb.executeCompaction"
     let xs := immediate 0 all
-    inOrder [.selectCandidates, .sortStrings "paths", .mkdirTempCompaction, .newStreamWriter, .writerOpen, .mergeCompact,
+    -- the selected paths are a local string list (`‹[]string›`), the opened inputs a local list of table readers
+    inOrder [.selectCandidates, .sortStrings "‹[]string›", .mkdirTempCompaction, .newStreamWriter, .writerOpen, .mergeCompact,
              .writerClose, .saveCompactionFlag] xs = true ∧
-    inSortedFullLoop .openReader "paths" xs = true ∧
+    inSortedFullLoop .openReader "‹[]string›" xs = true ∧
     (deferredBlocks all).map acts = [[.writerClose], [.readerClose]] ∧
-    allBefore .readerClose .openReader all = true ∧ inFullLoop .readerClose "readers" all = true ∧
+    allBefore .readerClose .openReader all = true ∧ inFullLoop .readerClose "‹[]sstables.SSTableReaderI›" all = true ∧
     condsAround .readerClose [] all = [[]] ∧ occurs .readerClose xs = false := by decide +kernel
 
 /-- the success flag: written, then its writer closed (which makes it readable), nothing else.  Since a7ed007 the close
@@ -60,28 +64,38 @@ theorem reflect_after_execute :
 is NOT inside a `defer` any more: it is the LAST statement of the normal path, unconditional, AFTER the
 `if err != nil { log.Panicf }` block — so it is not executed on the error path, where the panic now stops the process
 (a deferred send on the unbuffered channel kept the panic from unwinding: the goroutine hung).  The compactor has one
-more signal: in the early return of a database without compactions. -/
+more signal: for a database without compactions — in the normal form the whole function is ONE two-armed conditional on
+`enableCompactions` (the early `return` of the source does what the end of the function does): the else arm is exactly
+the signal, the then arm ends with the signal after the panic block, nothing follows the conditional. -/
 theorem done_signal_not_on_error_path :
     let f := itemsOf "simpledb.flushMemstoreContinuously"
     let c := itemsOf "simpledb.backgroundCompaction"
     occurs .signalFlusherDone (deferredBlocks f).flatten = false ∧ occurs .signalCompactorDone (deferredBlocks c).flatten = false ∧
     occurs .panicLog (deferredBlocks f).flatten = false ∧ occurs .panicLog (deferredBlocks c).flatten = false ∧
-    condsAround .panicLog [] f = [["err != nil"]] ∧ condsAround .panicLog [] c = [["err != nil"]] ∧
+    condsAround .panicLog [] f = [["errNonNil"]] ∧ condsAround .panicLog [] c = [["errNonNil", "simpledb.DB.enableCompactions"]] ∧
     condsAround .signalFlusherDone [] f = [[]] ∧ unconditional .signalFlusherDone f = true ∧
     allBefore .panicLog .signalFlusherDone f = true ∧ allBefore .executeFlush .signalFlusherDone f = true ∧
     f.getLast? = some (.act .signalFlusherDone) ∧
-    condsAround .signalCompactorDone [] c = [["!db.enableCompactions"], []] ∧
-    c.take 4 = [.ifBegin "!db.enableCompactions", .act .signalCompactorDone, .ret, .ifEnd] ∧
-    allBefore .panicLog .signalCompactorDone (c.drop 4) = true ∧ allBefore .executeCompaction .signalCompactorDone (c.drop 4) = true ∧
-    c.getLast? = some (.act .signalCompactorDone) ∧ noOther f = true ∧ noOther c = true := by decide +kernel
+    condsAround .signalCompactorDone [] c = [["simpledb.DB.enableCompactions"], ["else: simpledb.DB.enableCompactions"]] ∧
+    c.head? = some (.ifBegin "simpledb.DB.enableCompactions") ∧ (splitBlock 0 c.tail).2 = [] ∧
+    (splitElse 0 (splitBlock 0 c.tail).1).2 = [.act .signalCompactorDone] ∧
+    (let t := (splitElse 0 (splitBlock 0 c.tail).1).1
+     allBefore .panicLog .signalCompactorDone t = true ∧ allBefore .executeCompaction .signalCompactorDone t = true ∧
+     t.getLast? = some (.act .signalCompactorDone) ∧ unconditional .signalCompactorDone t = true) ∧
+    noOther f = true ∧ noOther c = true := by decide +kernel
 
 /-- `executeFlush`: the table is written completely, THEN the WAL file that holds the same records is removed, THEN the
-table is opened and added to the readers — each unconditionally except the removal (recovery flushes have no WAL path) -/
+table is opened and added to the readers — each under the one condition "the store is not empty" (an empty store returns
+nil like the end of the function does: normal form = one conditional around everything) and nothing else, except the
+removal, which also needs the WAL path of the hand-off (recovery flushes have none) -/
 theorem wal_removed_after_table_complete :
     let xs := itemsOf "simpledb.executeFlush"
     inOrder [.genIncrement, .mkdirTable, .flushWithTombstones, .removeWalFile, .openReader, .addReader] xs = true ∧
-    count .removeWalFile xs = 1 ∧ condsAround .removeWalFile [] xs = [["walPath != \"\""]] ∧
-    unconditional .flushWithTombstones xs = true ∧ noOther xs = true := by decide +kernel
+    count .removeWalFile xs = 1 ∧
+    condsAround .removeWalFile [] xs = [["simpledb.memStoreFlushAction.walPath != \"\"", "memstore.MemStoreI.Size() != 0"]] ∧
+    [Label.genIncrement, .mkdirTable, .flushWithTombstones, .openReader, .addReader].all
+      (fun l => condsAround l [] xs == [["memstore.MemStoreI.Size() != 0"]] && loopsAround l [] xs == [[]]) = true ∧
+    noOther xs = true := by decide +kernel
 
 /-- `flushMemstore`: open the writer, write every entry, close the writer at exit (the only deferred action) -/
 theorem memstore_flush_closes_writer_last :
@@ -99,16 +113,18 @@ theorem writer_open_creates_in_order :
     noOther xs = true := by decide +kernel
 
 /-- 3b4867f: the clean-up of a failed `Open` is ONE deferred block, registered before the first file is opened, that
-returns at once when `Open` succeeded (`err == nil`) and otherwise closes whichever of index writer, data writer and
-metadata file exists — each behind its own nil check.  Nothing of it runs where it stands, so a successful `Open` hands
-all three over open (the model's flush events continue with `WriteNext` on them). -/
+does something only when `Open` is returning an error (`errNonNil` around everything: the source spells it as an early
+`return` on `err == nil`, which is the same thing in the normal form) and then closes whichever of index writer, data
+writer and metadata file exists — each behind its own nil check.  Nothing of it runs where it stands, so a successful
+`Open` hands all three over open (the model's flush events continue with `WriteNext` on them). -/
 theorem writer_open_cleanup_only_on_error :
     let xs := itemsOf "SSTableStreamWriter.Open"
     deferredBlocks xs =
-      [[.ifBegin "err == nil", .ret, .ifEnd,
-        .ifBegin "writer.indexWriter != nil", .act .closeIndexWriter, .ifEnd,
-        .ifBegin "writer.dataWriter != nil", .act .closeDataWriter, .ifEnd,
-        .ifBegin "writer.metaDataFile != nil", .act .closeMetaFile, .ifEnd]] ∧
+      [[.ifBegin "errNonNil",
+        .ifBegin "nonNil(sstables.SSTableStreamWriter.indexWriter)", .act .closeIndexWriter, .ifEnd,
+        .ifBegin "nonNil(sstables.SSTableStreamWriter.dataWriter)", .act .closeDataWriter, .ifEnd,
+        .ifBegin "nonNil(sstables.SSTableStreamWriter.metaDataFile)", .act .closeMetaFile, .ifEnd,
+        .ifEnd]] ∧
     xs.head? = some .deferBegin ∧
     [Label.closeIndexWriter, .closeDataWriter, .closeMetaFile].all (fun l => !occurs l (immediate 0 xs)) = true := by
   decide +kernel
@@ -128,8 +144,8 @@ both writers exist — `writer_open_cleanup_only_on_error` — so on that path b
 theorem meta_written_last :
     let xs := itemsOf "SSTableStreamWriter.Close"
     inOrder [.closeIndexWriter, .closeDataWriter, .writeBloom, .writeMeta] (immediate 0 xs) = true ∧
-    condsAround .closeIndexWriter [] xs = [["writer.indexWriter != nil"]] ∧
-    condsAround .closeDataWriter [] xs = [["writer.dataWriter != nil"]] ∧
+    condsAround .closeIndexWriter [] xs = [["nonNil(sstables.SSTableStreamWriter.indexWriter)"]] ∧
+    condsAround .closeDataWriter [] xs = [["nonNil(sstables.SSTableStreamWriter.dataWriter)"]] ∧
     loopsAround .closeIndexWriter [] xs = [[]] ∧ loopsAround .closeDataWriter [] xs = [[]] ∧
     lastAmong .writeMeta [.closeIndexWriter, .closeDataWriter, .writeBloom, .dataWrite, .indexWrite, .openMetaFile] (exitOrder xs) = true ∧
     acts (deferredBlocks xs).flatten = [.closeMetaFile] ∧ noOther xs = true := by decide +kernel
